@@ -243,6 +243,7 @@ def bfs(model: BfsModel, depth: int, jobs: int, chunk: int = 32, max_states: int
     with Pool(_bfs_expand, jobs) as pool:
         for level in range(1, depth + 1):
             nxt: list[tuple] = []
+            level_new: dict[bytes, tuple] = {}
             for res in pool.map_chunks(chunks(frontier, chunk)):
                 for d, hist, viol, oh in res:
                     transitions += 1
@@ -251,8 +252,11 @@ def bfs(model: BfsModel, depth: int, jobs: int, chunk: int = 32, max_states: int
                         if key not in violations:
                             violations[key] = Violation(key, what, {"history": [model.alphabet[j] for j in hist]})
                     if d not in seen:
-                        seen.add(d)
-                        nxt.append(hist)
+                        cand = level_new.get(d)
+                        if cand is None or hist < cand:
+                            level_new[d] = hist  # canonical representative: smallest history of this level
+            seen.update(level_new)
+            nxt = sorted(level_new.values())
             levels.append({"depth": level, "new_states": len(nxt), "frontier_in": len(frontier)})
             completed_depth = level
             frontier = nxt
